@@ -341,4 +341,15 @@ example : decode {} [0x5d, 0x61, 0x2e] = .err .underflow := by decide
 example : decode {} [0x58, 0xff, 0xff, 0xff, 0xff, 0x61] = .err .eof := by decide   -- declared length beyond the input
 example : decode {} [0x28, 0x2e] = .ok [] .mark := by decide                          -- the sentinel escapes as a value
 
+/-- C15 for the opcodes of the pickle protocols OUTSIDE this codec's subset (explicit memo slots `BINPUT` `q` /
+`LONG_BINPUT` `r`, text-mode ops, frames, object construction, …): a `Decode` call that meets such a byte where an
+opcode is expected ends in the error "unimplemented opcode", in every decoder state, leaving the state as it was —
+it never yields a value made of never-filled slots and never `(nil, nil)` (seeded change C15-r1 made `q`/`r` opcodes). -/
+theorem C15_foreign_opcode (cfg : DecCfg) (fuel : Nat) (ds : DecSt) (b : UInt8) (rest : Bytes) (hb : armOf b = none) :
+    decodeCall cfg (fuel + 1) ds (b :: rest) = (.err .badOpcode, ds, rest) := by
+  simp [decodeCall, parseOp, hb]
+
+/-- the opcodes in question are outside the subset: BINPUT, LONG_BINPUT, PUT, GET, POP, DUP, PROTO, FRAME, REDUCE, GLOBAL -/
+example : [0x71, 0x72, 0x70, 0x67, 0x30, 0x32, 0x80, 0x95, 0x52, 0x63].all (fun b => (armOf b).isNone) = true := by decide
+
 end Dawn.Pickle
